@@ -270,75 +270,58 @@ Theorem build_cla_lb_members_at c lb L :
 Proof. apply apply_lb_members_at. Qed.
 
 (* ------------------------------------------------------------------ weights after load balancing *)
-Lemma wrap_sum_acc ws : forall a,
-  fold_left (fun a b => (a + b) mod U32MOD) ws (a mod U32MOD) = (a + plain_sum ws) mod U32MOD.
-Proof.
-  induction ws as [|w ws IH]; intros a; cbn [fold_left].
-  - unfold plain_sum. cbn [fold_left]. rewrite N.add_0_r. reflexivity.
-  - rewrite N.add_mod_idemp_l by (unfold U32MOD; lia). rewrite IH.
-    unfold plain_sum at 2. cbn [fold_left]. rewrite (plain_sum_acc ws (0 + w)). f_equal. lia.
-Qed.
-Lemma wrap_sum_mod ws : wrap_sum ws = plain_sum ws mod U32MOD.
-Proof. unfold wrap_sum. change 0 with (0 mod U32MOD) at 1. rewrite wrap_sum_acc. reflexivity. Qed.
-
 Definition pg_weights (g : pgroup_l) : list N := map (fun x : lmember => m_weight (snd x)) (pg_members g).
 
-(* a group is "well weighted" when it has no members, or its weight is the exact sum of its members
-   whenever that sum is below 2^32 *)
-Definition exact_below (g : pgroup_l) : Prop :=
-  pg_members g <> [] -> plain_sum (pg_weights g) < U32MOD -> pg_weight g = Some (plain_sum (pg_weights g)).
+(* a group with members carries the saturating sum of their weights *)
+Definition sat_ok (g : pgroup_l) : Prop :=
+  pg_members g <> [] -> Forall (fun w => w <= U32MAX) (pg_weights g) ->
+  pg_weight g = Some (N.min (plain_sum (pg_weights g)) U32MAX).
 
-Lemma exact_set_prio p g : exact_below g -> exact_below (set_prio p g).
-Proof. intros H. exact H. Qed.
+Lemma sat_map_prio (h : pgroup_l -> N) gs :
+  Forall sat_ok gs -> Forall sat_ok (map (fun g => set_prio (h g) g) gs).
+Proof. intros H. rewrite Forall_forall in *. intros x Hx. apply in_map_iff in Hx. destruct Hx as (g & <- & Hg). exact (H g Hg). Qed.
+Lemma sat_compact gs : Forall sat_ok gs -> Forall sat_ok (compact gs).
+Proof. apply sat_map_prio. Qed.
+Lemma sat_failover lb gs : Forall sat_ok gs -> Forall sat_ok (apply_locality_failover lb gs).
+Proof. intros H. apply sat_compact, sat_map_prio, H. Qed.
 
-Lemma exact_map_prio (h : pgroup_l -> N) gs :
-  Forall exact_below gs -> Forall exact_below (map (fun g => set_prio (h g) g) gs).
-Proof. intros H. rewrite Forall_forall in *. intros x Hx. apply in_map_iff in Hx. destruct Hx as (g & <- & Hg). apply exact_set_prio. auto. Qed.
-
-Lemma exact_compact gs : Forall exact_below gs -> Forall exact_below (compact gs).
-Proof. apply exact_map_prio. Qed.
-Lemma exact_failover lb gs : Forall exact_below gs -> Forall exact_below (apply_locality_failover lb gs).
-Proof. intros H. apply exact_compact, exact_map_prio, H. Qed.
-
-Lemma exact_split lb g : Forall exact_below (split_group lb g).
+Lemma sat_split lb g : Forall sat_ok (split_group lb g).
 Proof.
   rewrite Forall_forall. intros x Hx. unfold split_group in Hx. apply in_map_iff in Hx. destruct Hx as (p & <- & _).
-  intros _ Hlt. unfold pg_weight, pg_weights, pg_members. cbn [fst snd]. rewrite wrap_sum_mod.
-  rewrite N.mod_small; [reflexivity | exact Hlt].
+  intros _ Hw. unfold pg_weight, pg_weights, pg_members in *. cbn [fst snd] in *. rewrite sat_sum_min by exact Hw. reflexivity.
 Qed.
 
-Lemma exact_to_pgroup c g : In g (build_cla_l c) -> exact_below (to_pgroup g).
+Lemma sat_to_pgroup c g : In g (build_cla_l c) -> sat_ok (to_pgroup g).
 Proof.
-  intros Hg Hne Hlt.
+  intros Hg Hne Hw.
   assert (Hin : In (strip_l g) (build_cla c)) by (rewrite <- build_cla_l_strip; apply in_map; exact Hg).
   unfold pg_weight, pg_weights, pg_members, to_pgroup in *. cbn [fst snd] in *.
-  assert (Hw : map m_weight (snd (strip_l g)) = map (fun x : lmember => m_weight (snd x)) (snd g))
+  assert (Hm : map m_weight (snd (strip_l g)) = map (fun x : lmember => m_weight (snd x)) (snd g))
     by (unfold strip_l; cbn [snd]; rewrite map_map; reflexivity).
-  pose proof (weights c (strip_l g) Hin) as H. rewrite Hw in H. unfold strip_l in H at 1 2. cbn [fst snd] in H.
-  rewrite H.
-  - f_equal. unfold U32MOD, U32MAX in *. lia.
-  - intros E. apply map_eq_nil in E. contradiction.
-  - apply Forall_forall. intros w Hin'. pose proof (in_le_plain_sum w _ Hin'). unfold U32MOD, U32MAX in *. lia.
+  pose proof (weights c (strip_l g) Hin) as H. rewrite Hm in H. unfold strip_l in H at 1 2. cbn [fst snd] in H.
+  apply H; [|exact Hw]. intros E. apply map_eq_nil in E. contradiction.
 Qed.
 
-Theorem lb_weights_exact c lb g :
-  In g (build_cla_lb c lb) -> exact_below g.
+(* every setting (none, failover only, failoverPriority split): locality weight = min(sum, 2^32-1),
+   the same rule as before load balancing *)
+Theorem lb_weights c lb g :
+  In g (build_cla_lb c lb) -> pg_members g <> [] -> Forall (fun w => w <= U32MAX) (pg_weights g) ->
+  pg_weight g = Some (N.min (plain_sum (pg_weights g)) U32MAX).
 Proof.
-  assert (Hall : Forall exact_below (build_cla_lb c lb)); [|rewrite Forall_forall in Hall; apply Hall].
-  assert (Hbase : Forall exact_below (map to_pgroup (build_cla_l c))).
-  { rewrite Forall_forall. intros x Hx. apply in_map_iff in Hx. destruct Hx as (g0 & <- & Hg0). apply (exact_to_pgroup c g0 Hg0). }
-  assert (Hfp : Forall exact_below (apply_failover_priorities lb (build_cla_l c))).
+  assert (Hall : Forall sat_ok (build_cla_lb c lb)); [|rewrite Forall_forall in Hall; apply Hall].
+  assert (Hbase : Forall sat_ok (map to_pgroup (build_cla_l c))).
+  { rewrite Forall_forall. intros x Hx. apply in_map_iff in Hx. destruct Hx as (g0 & <- & Hg0). apply (sat_to_pgroup c g0 Hg0). }
+  assert (Hfp : Forall sat_ok (apply_failover_priorities lb (build_cla_l c))).
   { unfold apply_failover_priorities. destruct (l_proxy_labels lb); [exact Hbase|].
-    destruct (build_cla_l c) as [|g0 gs0] eqn:E; [constructor|]. rewrite <- E. apply exact_compact.
+    destruct (build_cla_l c) as [|g0 gs0] eqn:E; [constructor|]. rewrite <- E. apply sat_compact.
     rewrite Forall_forall. intros x Hx. apply in_flat_map in Hx. destruct Hx as (g1 & _ & Hx).
-    pose proof (exact_split lb g1) as H. rewrite Forall_forall in H. exact (H x Hx). }
+    pose proof (sat_split lb g1) as H. rewrite Forall_forall in H. exact (H x Hx). }
   unfold build_cla_lb, apply_lb. destruct (negb (l_has_lb lb) || negb (enable_failover c)); [exact Hbase|].
-  destruct (l_prio lb); [apply exact_failover; exact Hbase|].
-  destruct (l_failover lb); [exact Hfp | apply exact_failover; exact Hfp].
+  destruct (l_prio lb); [apply sat_failover; exact Hbase|].
+  destruct (l_failover lb); [exact Hfp | apply sat_failover; exact Hfp].
 Qed.
 
-(* at or above 2^32 the failoverPriority split re-sums the weights with a wrapping uint32 +=, unlike
-   generate/refreshWeight: two endpoints of weight 2^31 in one priority group get locality weight 0 *)
+(* the former witness of the wrap: two endpoints of weight 2^31 split by failoverPriority *)
 Definition fpw_in : cla_in :=
   {| c_found := true; c_dns := false; c_ports := [(80, 1)]; c_port := 80; c_inference := false;
      c_cluster_local := false; c_node_local := false; c_persistent := false; c_default_unh := true; c_subset := 0;
@@ -346,15 +329,7 @@ Definition fpw_in : cla_in :=
      c_gws := []; c_scale := 1; c_shards := Some [((1, 2), [k12_ep 1; k12_ep 2])] |}.
 Definition fpw_lb : lb_in :=
   {| l_has_lb := true; l_proxy_loc := 111; l_proxy_labels := [(1, 1)]; l_failover := []; l_prio := [(1, None)] |}.
-
-Theorem lb_weights_refuted :
-  exists c lb g, In g (build_cla_lb c lb) /\ pg_members g <> [] /\
-    Forall (fun w => w <= U32MAX) (pg_weights g) /\
-    pg_weight g <> Some (N.min (plain_sum (pg_weights g)) U32MAX) /\
-    (* while the assignment before load balancing carries the saturated weight for the same members *)
-    map (fun g : lgroup => snd (fst g)) (build_cla c) = [Some U32MAX].
-Proof.
-  exists fpw_in, fpw_lb. eexists. split; [vm_compute; left; reflexivity|].
-  split; [discriminate|]. split; [repeat constructor; vm_compute; discriminate|].
-  split; [vm_compute; discriminate | vm_compute; reflexivity].
-Qed.
+Lemma lb_weights_example :
+  map pg_weight (build_cla_lb fpw_in fpw_lb) = [Some U32MAX] /\
+  map (fun g : lgroup => snd (fst g)) (build_cla fpw_in) = [Some U32MAX].
+Proof. vm_compute. split; reflexivity. Qed.
